@@ -16,7 +16,7 @@ def run(ctx):
                   "HasChild, 11 ns-qualified string reference types incl. reserved characters, 2 numeric custom} x inverse x "
                   "subtypes x {no target, namespace 0/1/9/10/65535 x every name of length <= 2 (thorough 3) over "
                   "{a 1 & / . < > : # ! U+E9}} (quick: full names with 3 reference types, all reference types with 5 targets); "
-                  "every path of 2..3 elements over 8 boundary-sensitive elements; thorough: random paths of 4..32 elements "
+                  "every path of 2..3 (thorough 4) elements over 8 boundary-sensitive elements; thorough: random paths of 4..32 elements "
                   "by TLC simulation. Each path is printed and re-parsed by the real code and TLC compares element by element. "
                   "No-panic half: every string of length <= 4 (thorough 5) over the reserved characters, 1, a, U+E9 and every "
                   "one-character mutation of 16 printed paths through RelativePath::from_str and RelativePathElement::from_str; "
